@@ -218,6 +218,12 @@ def run(tier):
         for name, s in [(base, src)] + [(f"{base}#m{j}", m) for j, m in enumerate(mutants(src, MUT_PER_FILE[tier]))]:
             inputs = [[SPECIAL_INPUTS[(t + c) % len(SPECIAL_INPUTS)] for c in range(4)] for t in range(n)]
             reqs.append({"id": name, "src": s, "n": n, "path": f, "inputs": inputs})
+    # ---- the state-site position table (lib/sitepos.py): stateful calls in every sub-expression slot of every form
+    import sitepos
+    for name, inline, _ref in sitepos.programs():
+        if ":helper" in name and not name.endswith(":tail"):
+            continue                # (one rustc run per program: dsp with and without a tail, the helper with a tail)
+        reqs.append({"id": name, "src": inline, "n": 8, "path": None, "inputs": []})
     # ---- (c) calling conventions: parameter lists over {scalar, tuple, record} x direct / handle / closure calls
     ccs = calling_conventions(2 if tier == "quick" else 3)
     for name, src in ccs:
